@@ -78,3 +78,50 @@ def run_emu(w):
         cur = emu.memory.read_byte(isr_addr) & 0xFF
         out.append(f"{int(fm)},{int(fs)},{sch.next_mti},{sch.next_sti},{cur}")
     return ";".join(out)
+
+
+def run_wait(w):
+    """timer_wait <pm> <ps> <pre_nops> <I>: a machine whose main program is <pre_nops> NOPs, MV I,<I>, WAIT; the scheduler's
+    advance() is observed (not replaced) while the WAIT instruction is stepped.  Answer:
+    c0,c1,m0,s0,last-ticked-cycle|<cycles at which MTI fired>|<cycles at which STI fired>|next_mti,next_sti,isr"""
+    from pce500.emulator import PCE500Emulator
+    from sc62015.pysc62015.emulator import RegisterName as R
+
+    pm, ps, pre, cnt = int(w[0]), int(w[1]), int(w[2]), int(w[3])
+    IMEM, MAIN = 0x100000, 0xC1000
+    emu = PCE500Emulator(save_lcd_on_exit=False)
+    main = bytes([0x00] * pre + [0x0B, cnt & 0xFF, (cnt >> 8) & 0xFF, 0xEF, 0x00, 0x00])
+    rom = bytearray(0x40000)
+    rom[MAIN - 0xC0000:MAIN - 0xC0000 + len(main)] = main
+    emu.load_rom(bytes(rom))
+    emu.cpu.regs.set(R.PC, MAIN)
+    emu.cpu.regs.set(R.S, 0xB9000)
+    emu.memory.write_byte(IMEM + 0xFB, 0)
+    emu.memory.write_byte(IMEM + 0xFC, 0)
+    emu._timer_enabled = True
+    emu._timer_mti_period = pm
+    emu._timer_sti_period = ps
+    emu._timer_next_mti = emu.cycle_count + pm
+    emu._timer_next_sti = emu.cycle_count + ps
+    for _ in range(pre + 1):
+        emu.step()
+    sch = emu._scheduler
+    log = []
+    orig = sch.advance
+
+    def spy(cycle):
+        fired = tuple(orig(cycle))
+        log.append((int(cycle), fired))
+        return fired
+
+    sch.advance = spy
+    c0, m0, s0 = emu.cycle_count, sch.next_mti, sch.next_sti
+    try:
+        emu.step()
+    finally:
+        del sch.advance
+    fm = [str(c) for c, f in log if TimerSource.MTI in f]
+    fs = [str(c) for c, f in log if TimerSource.STI in f]
+    isr = emu.memory.read_byte(IMEM + 0xFC) & 0xFF
+    last = max([c for c, _ in log], default=c0)
+    return f"{c0},{emu.cycle_count},{m0},{s0},{last}|{','.join(fm)}|{','.join(fs)}|{sch.next_mti},{sch.next_sti},{isr},{emu.cpu.regs.get(R.I)}"
